@@ -193,6 +193,7 @@ def combine_and_shape(run):
                 ("share+to_tensordict", lambda t: t.share_memory_().to_tensordict(), lambda x: x),
                 ("to_dict", None, None),
                 ("update", None, None),
+                ("update_", None, None),
                 ("memmap", None, None),
             ]
             if rank:
@@ -247,6 +248,13 @@ def combine_and_shape(run):
                 other = N.holder(spec2, shape, dev)
                 case["other"] = str(spec2)
                 check(run, "update", case, lambda: content(td.update(other)), nested(a2), f"update:{rep}->{'stack' if has_stack(spec2) else 'shared'}")
+            elif name == "update_":
+                # the in-place spelling: the destination must end up with the content of the source as well
+                a2 = N.gen_array(run.rng, shape)
+                spec2 = N.represent(a2, run.rng)
+                other = N.holder(spec2, shape, dev)
+                case["other"] = str(spec2)
+                check(run, "update", case, lambda: content(td.update_(other)), nested(a2), f"update_:{rep}->{'stack' if has_stack(spec2) else 'shared'}")
             elif name == "memmap":
                 d = os.path.join(scratch, f"m{it}")
 
